@@ -6,6 +6,7 @@ M3 column provenance table
 M4 the counters behind the cluster columns are true (= C02.P4)
 """
 import ast
+import re
 
 from ..index import AnalysisError, walk_no_nested
 from ..norm import Affine, Canon, ProvCanon, affine, effects_of_event, effects_along
@@ -149,6 +150,19 @@ def count_status(repo, canon, f, expr):
                             for a, b in ((l, r), (r, l)):
                                 if isinstance(a, ast.Attribute) and a.attr == 'status':
                                     return 'count(status == %s)' % ast.unparse(b)
+            # any counting idiom the affine domain knows (Counter(...)[S], sum(1 for ... if ...), ...)
+            from ..norm import COUNT_INFO
+            for n in walk_no_nested(g.node):
+                if isinstance(n, ast.Return) and n.value is not None:
+                    a = affine(canon, n.value, Frame(g))
+                    ks = [k for k in a.terms if k in COUNT_INFO]
+                    if len(ks) == 1 and len(a.terms) == 1 and a.terms[ks[0]] == 1 and a.const == 0:
+                        it, lits = COUNT_INFO[ks[0]]
+                        if it == 'Instrument.observations' and len(lits) == 1 and lits[0].pol:
+                            m_ = re.fullmatch(r'(\S+) == \$1\.status', lits[0].atom) or re.fullmatch(
+                                r'\$1\.status == (\S+)', lits[0].atom)
+                            if m_:
+                                return 'count(status == %s)' % m_.group(1)
             for n in walk_no_nested(g.node):
                 if isinstance(n, ast.Return) and n.value is not None:
                     v = n.value
